@@ -227,8 +227,38 @@ func c08ReplayGap() [][]string {
 	return cases
 }
 
+// c08SendFail: a receiver whose upstream Send fails (the source cluster went away without resetting the stream): an
+// acknowledgement routed to it, or its keep-alive, hits the failure; the receiver ends on its own — with or without a
+// successor, before or after the acknowledgement, one or two shards. Outside the registry model's op language (monitor only).
+func c08SendFail() [][]string {
+	var cases [][]string
+	for _, ackFirst := range []bool{true, false} {
+		for _, succ := range []string{"", "open 101", "open 101 fail"} {
+			for _, two := range []bool{false, true} {
+				ops := []string{"open 101", "open 201"}
+				if two {
+					ops = append(ops, "open 102")
+				}
+				ops = append(ops, "wm 0 10")
+				if ackFirst {
+					ops = append(ops, "ack 1", "settle", "sendfail 0", "settle", "settle") // the keep-alive hits the failure
+				} else {
+					ops = append(ops, "sendfail 0", "ack 1", "settle") // the aggregated acknowledgement hits it
+				}
+				if succ != "" {
+					ops = append(ops, succ, "settle")
+				}
+				ops = append(ops, "wm 0 12", "open 202", "settle", "end")
+				cases = append(cases, ops)
+			}
+		}
+	}
+	return cases
+}
+
 func genC08(e *Env) [][]string {
 	var cases [][]string
+	cases = append(cases, c08SendFail()...)
 	pts := c08QuickPoints
 	gap := c08ReplayGap()
 	e.Stats["replay_gap_family"] = len(gap)
